@@ -39,6 +39,17 @@ func NewKey(label string, id byte, suites []tlsref.Suite, publicName string) Key
 	return KeyPair{label, priv, info}
 }
 
+// NewKeyOpt is NewKey for a config with a free maximum_name_length and a raw extensions block.
+func NewKeyOpt(label string, id byte, suites []tlsref.Suite, publicName string, maxNameLen int, extensions []byte) KeyPair {
+	priv := hpkeref.DetKey(label)
+	raw := tlsref.BuildConfigOpt(id, priv.PublicKey().Bytes(), suites, publicName, maxNameLen, extensions)
+	info, rest, err := tlsref.ParseConfig(raw)
+	if err != nil || len(rest) != 0 {
+		panic("echx: bad config")
+	}
+	return KeyPair{label, priv, info}
+}
+
 func (k KeyPair) Key() ech.Key {
 	return ech.Key{Config: k.Cfg.Raw, PrivateKey: k.Priv.Bytes(), SendAsRetry: true}
 }
